@@ -207,6 +207,15 @@ def check_index(case, violations, counters):
         non_trivial_items = [i for i in case['idx'] if i[0] != 'ell' and not (i[0] == 'sl' and i[1:] == [None, None, None])]
         if len(non_trivial_items) == 1 and non_trivial_items[0][0] in ('a1', 'a2') and not isinstance(r2, DiagonalOperator):
             violations.append({'kind': 'PtP-not-simplified', 'case': case, 'detail': f'single integer-array axis but (P.T @ P).reduce() is a {type(r2).__name__}'})
+        if any(i[0] in ('a1', 'a2', 'au') for i in case['idx']) and not has_mask and len(case['idx']) <= 2:   # boolean masks cannot be traced; short tuples only (one compilation each)
+            import equinox
+
+            yv = data(ref.shape, 9)
+            got_j = np.asarray(equinox.filter_jit(lambda o, v: CompositionOperator([o, o.T]).reduce().mv(v))(op, jnp.asarray(yv)))
+            want_j = (PPt @ yv.ravel()).reshape(ref.shape)
+            if got_j.shape != want_j.shape or not np.array_equal(got_j, want_j):
+                violations.append({'kind': 'PPt-wrong-under-jit', 'case': case, 'detail': f'(P @ P.T).reduce() evaluated inside filter_jit gives {got_j.ravel()[:6]} instead of {want_j.ravel()[:6]}'})
+            counters['PPt_jit'] += 1
         if isinstance(r2, DiagonalOperator):
             counters['PtP_diagonal'] += 1
         if isinstance(r1, IdentityOperator):
